@@ -187,7 +187,7 @@ PROPS = {
         "assumptions": TRUST,
     },
     "C20": {
-        "technique": "TLA+ add_truncated loops (ImplTrunc.tla) model-checked for termination and earliest match (MC_C20 on the whole universe, 3 twins incl. the pre-repair search order) + TLC trace validation of truncated additions under a watchdog",
+        "technique": "TLA+ add_truncated loops (ImplTrunc.tla) model-checked for termination and earliest match (MC_C20 on the whole universe, 4 twins incl. the pre-repair search order and the pre-repair hour-24 loop) + TLC trace validation of truncated additions under a watchdog",
         "level_text": "For every recorded t + p (either order) TLC checks the result matches t's fields read in the right offset, is not earlier "
                       "than p, is the EARLIEST such date-time (no matching day in between, least matching time of day), carries p's offset, is "
                       "valid, and that applying t again changes nothing; every call runs under a 5 s watchdog.",
@@ -195,7 +195,8 @@ PROPS = {
         "mc": [{"module": "MC_C20.tla", "cfg": "MC_C20.cfg", "coverage": True},
                {"module": "MC_C20.tla", "cfg": "MC_C20_twin1.cfg", "expect_violation": True},
                {"module": "MC_C20.tla", "cfg": "MC_C20_twin2.cfg", "expect_violation": True},
-               {"module": "MC_C20.tla", "cfg": "MC_C20_known.cfg", "expect_violation": True}], "expect_ops": ["TruncAdd"],
+               {"module": "MC_C20.tla", "cfg": "MC_C20_known.cfg", "expect_violation": True},
+               {"module": "MC_C20.tla", "cfg": "MC_C20_twin3.cfg", "expect_violation": True}], "expect_ops": ["TruncAdd"],
         "rule": "one case = one truncated addition; shapes h/hm/hms/m/ms/s/none x day designators incl. day 29-31, 366, week 53; all non-trivial",
         "assumptions": TRUST,
     },
